@@ -77,6 +77,11 @@ MulSmallR(a, k, i, carry) ==
   ELSE LET p == a[i] * k + carry IN Append(MulSmallR(a, k, i - 1, p \div 256), p % 256)
 MulSmall(a, k) == Strip(MulSmallR(a, k, Len(a), 0))
 
+(* a * b, exact, for byte numbers of any size *)
+RECURSIVE MulR(_, _, _, _)
+MulR(a, b, i, acc) == IF i > Len(b) THEN acc ELSE MulR(a, b, i + 1, Add(acc \o <<0>>, MulSmall(a, b[i])))
+Mul(a, b) == Strip(MulR(Strip(a), Strip(b), 1, <<>>))
+
 (* 2^64 - 1 *)
 Max64 == [i \in 1..8 |-> 255]
 (* saturate to 64 bits *)
